@@ -889,6 +889,51 @@ theorem cone_spec (hs : LawfulSqrt sq) (pi ρ hh r : K) (hpi : 0 ≤ pi) (hρ : 
   simp only [m]
   congr 1 <;> ring
 
+/-- **3-D `+` is additive in the moments** (before the eigen-decomposition): the triple `(mass, com, inertia matrix)` that `Add`
+hands to `with_inertia_matrix` satisfies `m = m₁+m₂`, `m·c = m₁c₁ + m₂c₂` and, for the tensors about the origin,
+`I + m(|c|²1 − ccᵀ) = Σ_k (R_k diag(I_k) R_kᵀ + m_k(|c_k|²1 − c_k c_kᵀ))`. -/
+theorem add3_raw_moments (a b : MP3 K) (ha : 0 ≤ a.invMass) (hb : 0 ≤ b.invMass)
+    (m : K) (c : V3 K) (I : M3 K) :
+    letI := fieldNum K sq
+    MP3.addRaw a b = some (m, c, I) →
+      m = massOf3 a + massOf3 b ∧
+      c.x * m = a.com.x * massOf3 a + b.com.x * massOf3 b ∧
+      c.y * m = a.com.y * massOf3 a + b.com.y * massOf3 b ∧
+      c.z * m = a.com.z * massOf3 a + b.com.z * massOf3 b ∧
+      madd I (steiner3 m c) =
+        madd (madd a.reconstruct (steiner3 (massOf3 a) a.com)) (madd b.reconstruct (steiner3 (massOf3 b) b.com)) := by
+  intro h
+  unfold MP3.addRaw at h
+  split_ifs at h
+  simp only [Option.some.injEq, Prod.mk.injEq, shifted3_spec, inv_spec] at h
+  obtain ⟨rfl, rfl, rfl⟩ := h
+  have hm1 : 0 ≤ a.invMass⁻¹ := inv_nonneg.2 ha
+  have hm2 : 0 ≤ b.invMass⁻¹ := inv_nonneg.2 hb
+  simp only [massOf3, V3.add, V3.smul, V3.sub, M3.add, madd, steiner3]
+  set m1 := a.invMass⁻¹
+  set m2 := b.invMass⁻¹
+  rcases eq_or_ne (m1 + m2) 0 with h0 | h0
+  · have e1 : m1 = 0 := by linarith
+    have e2 : m2 = 0 := by linarith
+    simp [e1, e2]
+  · refine ⟨trivial, by field_simp, by field_simp, by field_simp, ?_⟩
+    congr 1 <;> congr 1 <;> (field_simp; ring)
+
+/-- **covariance of `transform_by` (3-D)**: mass and principal inertias are unchanged, the centre of mass is moved by the
+isometry, and the reconstructed inertia tensor is conjugated by the matrix `M` of the isometry's quaternion,
+`I' = M I Mᵀ` (an identity for every quaternion; for a unit one `M` is the rotation matrix). -/
+theorem transformBy3_covariant (p : MP3 K) (m : Iso3 K) :
+    letI := fieldNum K sq
+    let M := (⟨m.qi, m.qj, m.qk, m.qw⟩ : Quat K).toMat
+    massOf3 (p.transformBy m) = massOf3 p ∧ inertiaOf3 (p.transformBy m) = inertiaOf3 p ∧
+    (p.transformBy m).com = m.act p.com ∧
+    (p.transformBy m).reconstruct = (M.mul p.reconstruct).mul (mtr M) := by
+  refine ⟨rfl, rfl, rfl, ?_⟩
+  simp only [MP3.transformBy, MP3.reconstruct]
+  rw [inverse_mul, toMat_mul, toMat_mul, toMat_inverse sq ⟨m.qi, m.qj, m.qk, m.qw⟩]
+  simp only [m3_mul_assoc]
+  rfl
+
 /-! ## Integrals over ℝ: the closed forms are the moments of the uniformly filled shapes -/
 section Integrals
 open intervalIntegral
